@@ -45,6 +45,8 @@ func init() {
 				Doc: "If a route matches, no 4xx: legal optional whitespace in Accept/Content-Type must not turn a match into 406/415."},
 			{ID: "C02.h", Template: "T-PROV", Required: true, Run: ruleAllow405,
 				Doc: "405 carries an Allow header naming exactly the methods of the path-matching routes."},
+			{ID: "C02.n", Template: "T-SIBLING", Required: false, Run: ruleSubmatchContext,
+				Doc: "No route may claim a URL it does not match (405/404 instead): a captured group is used to test another string only together with the literal context the pattern requires (same obligations as C01.f)."},
 		},
 	})
 }
